@@ -1,8 +1,8 @@
-"""C14: keyboard matrix (Python model: automaton/FIFO proof, row computation bounded in #keys)."""
+"""C14: keyboard matrix (Python model: automaton/FIFO proof, row computation for all keys by the for-each rule)."""
 from props import common
 
 FUNCS = ["pce500.keyboard_matrix:KeyboardMatrix._update_key_state", "press_key", "release_key", "inject_event", "release_all_keys",
-         "_enqueue_event", "pop_fifo", "fifo_snapshot", "_active_columns", "_compute_kil", "read_kil", "get_active_columns", "scan_tick",
+         "_enqueue_event", "pop_fifo", "fifo_snapshot", "_active_columns", "_compute_kil (for-each rule over the key table)", "read_kil", "peek_kil", "write_kol", "write_koh", "load_state (KOL/KOH masks)", "get_active_columns", "scan_tick",
          "MatrixEvent.to_byte", "pce500.emulator:PCE500Emulator._tick_timers (KEYI gating)"]
 KEYSETS = [["KEY_A", "KEY_D", "KEY_ENTER"], ["KEY_Q", "KEY_E", "KEY_F1"], ["KEY_TRIANGLE_UP_DOWN", "KEY_P", "KEY_W"]]
 
@@ -17,21 +17,24 @@ def run(prop, tier):
     reps += common.run_units("contracts.keys:unit_fifo", fifo, budget=300)
     reps += common.run_units("contracts.keys:unit_scan", [dict(key=k, strobed=s) for k in ("KEY_A", "KEY_ENTER", "KEY_F1") for s in (True, False)], budget=300)
     reps += common.run_units("contracts.keys:unit_keyi", [dict(events=e, kb_irq=k) for e in (0, 1, 3) for k in (True, False)], budget=300)
+    # row computation: _active_columns under its own contract (complete case split on the KOL high nibble), register
+    # invariant, and _compute_kil/read_kil/peek_kil with every key in an arbitrary state by the for-each rule
+    reps += common.run_units("contracts.keys:unit_active_columns", [dict(kol_hi=h, active_high=p) for h in range(16) for p in (True, False)], budget=300)
+    reps += common.run_units("contracts.keys:unit_koh_invariant", [dict(active_high=p) for p in (True, False)], budget=300)
+    reps += common.run_units("contracts.keys:unit_kil_all", [dict(active_high=p, entry=e) for p in (True, False) for e in ("read_kil", "peek_kil")], budget=900)
     v.absorb(reps, known)
     proved = (v.obligations, v.discharged)
-    his = range(16) if tier == "thorough" else (0, 5, 15)
-    sets = KEYSETS if tier == "thorough" else KEYSETS[:1]
-    kil = [dict(kol_hi=h, active_high=p, keys=ks) for h in his for p in (True, False) for ks in sets]
-    kreps = common.run_units("contracts.keys:unit_kil", kil, budget=1200)
-    v.absorb(kreps, known)
-    nb = (v.obligations - proved[0], v.discharged - proved[1])
-    v.obligations, v.discharged = proved
-    v.extra["bounded_obligations"] = dict(generated=nb[0], discharged=nb[1],
-                                          note="row computation with at most 3 non-idle keys and the listed KOL high nibbles: bounded, not counted in obligations/discharged")
-    v.bounded = [dict(part="_compute_kil/_active_columns/read_kil", bound=f"KOL low nibble and KOH symbolic, KOL high nibble in {list(his)}, both polarities, <= 3 keys in arbitrary state ({len(sets)} key sets), all other keys idle",
-                      note="bounded in the number of simultaneously non-idle keys"),
-                 dict(part="scan_tick", bound="one key in arbitrary state, the others idle, default thresholds", note="per-key loop body proved for all states by unit_automaton"),
-]
+    v.bounded = [dict(part="scan_tick", bound="one key in arbitrary state, the others idle, default thresholds", note="per-key loop body proved for all states by unit_automaton; the composition over several simultaneously active keys (event order = key table order) is not proved")]
+    if tier == "thorough":
+        kil = [dict(kol_hi=h, active_high=p, keys=ks) for h in range(16) for p in (True, False) for ks in KEYSETS]
+        kreps = common.run_units("contracts.keys:unit_kil", kil, budget=1200)
+        v.absorb(kreps, known)
+        nb = (v.obligations - proved[0], v.discharged - proved[1])
+        v.obligations, v.discharged = proved
+        v.extra["bounded_obligations"] = dict(generated=nb[0], discharged=nb[1],
+                                              note="cross-check of the cut: row computation with the real _active_columns inlined and at most 3 non-idle keys; not counted in obligations/discharged")
+        v.bounded.append(dict(part="_compute_kil with _active_columns inlined (cross-check of the contract cut)", bound=f"<= 3 keys in arbitrary state ({len(KEYSETS)} key sets), all other keys idle, all KOL/KOH values",
+                              note="bounded companion; the unbounded statement is unit_kil_all"))
     from props import rust_standin as RS
     vec = dict(keyboard=dict(press_thresholds=[6, 1, 2, 3] if tier == "quick" else [6, 1, 2, 3, 4, 5, 7, 12]))
     res = RS.run(vec, ["keyboard"])
@@ -48,7 +51,8 @@ def run(prop, tier):
     ]
     v.samples = [dict(obligation="rises-iff-held-for-debounce-interval", statement="forall state in Inv, thresholds: not debounced => (debounced' <=> pressed and strobed and press_ticks+1 >= press_threshold)"),
                  dict(obligation="enqueue:appends-and-drops-only-oldest", statement="forall head,tail,contents,event: view' = (view or view[1:] when full) + [byte(event)]"),
-                 dict(obligation="press:keeps-debounced", statement="press_key never changes the debounced flag")]
+                 dict(obligation="press:keeps-debounced", statement="press_key never changes the debounced flag"),
+                 dict(obligation="for0:inv-preserved / kil-all:row r", statement="forall KOL, KOH, polarity, all 87 key states: after k keys, bit r of value <=> exists j < k: row_j = r and column_j strobed and debounced_j; at exit: KIL bit r <=> some debounced key of row r sits on a strobed column")]
     rule = ("automaton contract on one symbolic key (all states in the invariant, all thresholds), key operations establish the invariant, FIFO against its sequence view for all 64 head/tail pairs, "
-            "scan_tick = automaton + queue, KEYI gating; row computation bounded in the number of non-idle keys")
+            "scan_tick = automaton + queue, KEYI gating; row computation: _active_columns contract (complete case split) + fold invariant over the whole key table (for-each rule), every key in an arbitrary state")
     return v.finish(f"./check {prop} --tier {tier}", rule, tier)
